@@ -3,11 +3,11 @@
 TIERS = {
     "C07": {
         "quick": {"cases": 3000, "min_steps": 20, "max_steps": 60, "wall": 900, "echo": 160, "shrink_s": 25},
-        "thorough": {"cases": 150000, "min_steps": 20, "max_steps": 80, "wall": 7200, "echo": 1500, "shrink_s": 40},
+        "thorough": {"cases": 150000, "min_steps": 20, "max_steps": 80, "wall": 7200, "echo": 1500, "hash_echo": 4000, "shrink_s": 40},
     },
     "C17": {
         "quick": {"cases": 24000, "configs": 4, "wall": 600},
-        "thorough": {"cases": 200000, "configs": 16, "wall": 7200},
+        "thorough": {"cases": 200000, "configs": 16, "wall": 7200, "fresh_sample": 480},
     },
     "C04": {
         "quick": {"cases": 120000, "m_seeded": 2, "flip_n": 8, "wall": 600, "echo": 48},
